@@ -327,7 +327,14 @@ def coq_cases(sc, ob):
                 cnat(sc["r"]), cnat(sc["w"]), oks, lerr, PCLASS.get(o["res"], "POther"), cbool(o["p"]["found"]),
                 clist(cbool(b["found"]) for b in o["b"]))))
         elif st["op"] == "incr":
-            continue        # judged by check_incr (the read half is the CGet of the same layout)
+            nb, exp, down, local, bs = get_layout(sc, st, o)
+            loc = copt(qlib.centry(str(100 + local), 0, local)) if local is not None else "None"
+            bl = clist("(%s, %s)" % (cbool(j not in down), copt(qlib.centry(str(200 * (j + 1) + bs[j]), 0, bs[j])) if bs[j] is not None else "None") for j in range(nb))
+            if o["res"] == "ok":
+                g = "(IcValue %s)" % cZ(int(o.get("val", "0")))
+            else:
+                g = {"readquorum": "IcRefused"}.get(o["res"], "IcOther")
+            out.append(((sc["id"], "step", i), "CIncr %s %s %s %s %s" % (cnat(sc["rq"]), "far_future_ms", loc, bl, g)))
         else:
             nb, exp, down, local, bs = get_layout(sc, st, o)
             loc = copt(qlib.centry("p@%d" % local, 1 if 0 in exp else 0, local)) if local is not None else "None"
